@@ -202,7 +202,7 @@ func (x *Engine) verifyFunc(fs *FuncSpec, cs *Clause, prop string) (rep *FuncRep
 		et := ptrElem(fv.Type())
 		cv := Val{T: cell, Typ: fv.Type()}
 		if _, isS := structOf(et); !isS {
-			cv.Addr = &Addr{Kind: "cell", Key: x.memKey(et), Ref: cell}
+			cv.Addr = &Addr{Kind: "cell", Key: x.memKey(et), Ref: cell, Priv: true}
 		}
 		x.assume(st, fmt.Sprintf("(and (< %s %s) (not (= %s 0)))", cell, x.get(st, "$alloc"), cell))
 		if cv.Addr != nil {
@@ -228,6 +228,9 @@ func (x *Engine) verifyFunc(fs *FuncSpec, cs *Clause, prop string) (rep *FuncRep
 		fr.env[c.Label] = lv
 	}
 	for _, c := range fs.Requires {
+		if len(c.Props) > 0 && !hasProp(c.Props, prop) {
+			continue
+		}
 		ev := &Eval{x: x, st: st, old: st, env: fr.env, pkg: pkg}
 		x.assume(st, x.safeEvalBool(ev, c))
 		if c.Kind == "objinv" {
